@@ -51,6 +51,25 @@ EXPLANATION = ("theorems: each transform's carry-over = firstn/skipn re-arrangem
 # default=None in the implementation (nothing is ever empty); None is handed over for it and mapped back.
 NONE_D = -999983
 
+def _finding_fixed(prefix):
+    import json, os
+    try:
+        kf = json.load(open(os.path.join(os.path.dirname(os.path.dirname(os.path.dirname(os.path.abspath(__file__)))),
+                                         "known_findings.json")))
+    except Exception:
+        return False
+    return any(str(e.get("id", "")).startswith(prefix) and e.get("status") == "fixed" for e in kf)
+
+
+# S51 (proposed_fixes/S51-*.diff): the all-default sub-fibers that updatePayloadsBelow empties keep the
+# own shape / active range they were given for the OLD level (e.g. by a split of an uncompressed rank);
+# a later tuple/pair flatten over that level then compares them with tuple shapes / ranges and raises
+# TypeError (Rank.append max(old, new) on shape-less tensors, _mergeRanksHelper min/max otherwise).
+# While the finding is open the chains generator keeps split away from shape-less tensors and from
+# "U" ranks; as soon as known_findings.json records S51 as fixed the whole domain is generated again,
+# so the check reports the defect if it returns.
+S51_FIXED = _finding_fixed("S51")
+
 NAMES = ["M", "K", "N", "P", "Q", "R", "S", "T", "U", "W", "A", "B", "C", "D"]
 STYLES = ["tuple", "pair", "absolute", "relative", "linear"]
 
@@ -330,7 +349,7 @@ def ref_apply(st, x):
         for r in seg_ids:
             nid += r if isinstance(r, list) else [r]
         if style == "tuple":
-            nsh = list(seg_sh)
+            nsh = [y for z in seg_sh for y in (z if isinstance(z, list) else [z])]      # S50: concatenated
             f = lambda seg: [y for c in seg for y in (c if isinstance(c, list) else [c])]
         elif style == "pair":
             nsh = _nest(seg_sh)
@@ -377,9 +396,8 @@ def chain_ops(st, rng):
     plain = [isinstance(ids[i], str) and isinstance(shape[i], int) for i in range(n)]
     out = []
     for i in range(n):
-        if plain[i] and auth:
-            # not on shape-less tensors: a later tuple/pair flatten over the split "U" rank raises
-            # (Rank.append: max(int own shape, tuple estimate)) - data-level, reported as a suspect
+        if plain[i] and (auth or S51_FIXED):
+            # S51 (see S51_FIXED): not on shape-less tensors while the finding is open
             out.append({"op": "split", "depth": i, "flavour": "uniform", "arg": rng.randint(1, 2)})
         if i + 1 < n and plain[i] and plain[i + 1]:
             out.append({"op": "swap", "depth": i})
@@ -394,9 +412,7 @@ def chain_ops(st, rng):
     for d in range(n - 1):
         for l in range(1, n - d):
             seg = range(d, d + l + 1)
-            styles = ["pair"]
-            if all(plain[i] for i in seg):
-                styles.append("tuple")
+            styles = ["pair", "tuple"]
             if auth and all(isinstance(shape[i], int) for i in seg):
                 styles.append("linear")
             for style in styles:
@@ -433,7 +449,8 @@ def gen_chain(rng, template=None):
     def add(src, x):
         states.append(ref_apply(states[src], x))
         steps.append({"src": src, "x": x, "pts": states[-1]["pts"]})
-    template = template or rng.choice(["A", "A", "B", "B", "R", "R"])
+    template = template or rng.choice(["A", "A", "B", "B", "R", "R"] + (["S"] if S51_FIXED else []))
+    force_u = None
     if template == "A":
         # flatten at depth >= 1 over >= 2 levels, then unflatten in one go and in single steps
         d0 = rng.randint(1, n - 3)
@@ -451,13 +468,22 @@ def gen_chain(rng, template=None):
         d0 = rng.randint(0, n - 3)
         st1 = rng.choice(["pair", "tuple", "linear"] if auth else ["pair", "tuple"])
         add(0, {"op": rng.choice(["flatten", "merge"]), "depth": d0, "levels": 1, "style": st1})
-        st2 = "linear" if st1 == "linear" else "pair"
+        st2 = "linear" if st1 == "linear" else rng.choice(["pair", "tuple", "tuple"])
         lv = rng.randint(1, n - 2 - d0)
         add(1, {"op": rng.choice(["flatten", "merge"]), "depth": d0, "levels": lv, "style": st2})
         if auth and st1 != "linear":
             add(1, {"op": "unflatten", "depth": d0, "levels": 1})
         else:
             add(1, {"op": rng.choice(["flatten", "merge"]), "depth": d0, "levels": 1, "style": st2})
+    elif template == "S":
+        # S51: an uncompressed rank below the root is split, then its .0 rank is flattened with the next
+        # rank (tuple / pair), then the result is flattened again from the top
+        d0 = rng.randint(1, n - 2)
+        force_u = d0
+        add(0, {"op": "split", "depth": d0, "flavour": "uniform", "arg": rng.randint(1, 2)})
+        add(1, {"op": rng.choice(["flatten", "merge"]), "depth": d0 + 1, "levels": 1,
+                "style": rng.choice(["tuple", "pair"])})
+        add(2, {"op": "flatten", "depth": 0, "levels": rng.randint(1, d0 + 1), "style": rng.choice(["pair", "tuple"])})
     else:
         for _ in range(rng.randint(2, 3)):
             src = len(states) - 1 if rng.random() < 0.6 else rng.randrange(len(states))
@@ -466,10 +492,10 @@ def gen_chain(rng, template=None):
                 break
             add(src, rng.choice(ops))
     fmts = [rng.random() < 0.3 for _ in range(n)]
-    if any(st["x"]["op"] == "split" for st in steps):
-        # a split "U" rank inside a later tuple/pair flatten raises in the data-level code (mixed int /
-        # tuple comparisons on the materialised default positions): reported as a suspect, not ours
-        fmts = [False] * n
+    if any(st["x"]["op"] == "split" for st in steps) and not S51_FIXED:
+        fmts = [False] * n                                 # S51 (see S51_FIXED)
+    if force_u is not None:
+        fmts[force_u] = True
     return {"k": "C", "ids": ids, "shape": shape, "auth": auth, "d": d,
             "fmts": fmts, "mut": rng.random() < 0.5,
             "tree": tree, "pts": states[0]["pts"], "steps": steps, "template": template}
